@@ -494,9 +494,21 @@ impl Scaler for FreeTypeScaler<'_> {
         self.phantom[1].x = self.phantom[0].x + F26Dot6::from_bits(advance);
         self.phantom[1].y = F26Dot6::ZERO;
         // vertical:
-        self.phantom[2].x = F26Dot6::ZERO;
+        // With subpixel hinting for a grayscale target, FreeType centers the
+        // vertical phantom points on the advance width ("use_aw_2")
+        let use_aw_2 = self.is_hinted
+            && self
+                .hinter
+                .map(|hinter| hinter.is_grayscale_cleartype())
+                .unwrap_or_default();
+        let vertical_x = if use_aw_2 {
+            F26Dot6::from_bits(advance / 2)
+        } else {
+            F26Dot6::ZERO
+        };
+        self.phantom[2].x = vertical_x;
         self.phantom[2].y = F26Dot6::from_bits(bounds[3] as i32 + tsb);
-        self.phantom[3].x = F26Dot6::ZERO;
+        self.phantom[3].x = vertical_x;
         self.phantom[3].y = self.phantom[2].y - F26Dot6::from_bits(vadvance);
     }
 
@@ -684,10 +696,7 @@ impl Scaler for FreeTypeScaler<'_> {
                     .ok_or(InsufficientMemory)?;
                 original_scaled.copy_from_slice(scaled);
                 // When hinting, round the phantom points.
-                for point in &mut scaled[phantom_start..] {
-                    point.x = point.x.round();
-                    point.y = point.y.round();
-                }
+                round_phantom_points(&mut scaled[phantom_start..]);
                 let mut input = HintOutline {
                     glyph_id,
                     unscaled,
@@ -718,9 +727,8 @@ impl Scaler for FreeTypeScaler<'_> {
                 // Notably, FreeType never calls TT_Hint_Glyph for composite
                 // glyphs when instructions are missing so this only applies
                 // to simple glyphs.
-                for (scaled, phantom) in scaled[phantom_start..].iter().zip(&mut self.phantom) {
-                    *phantom = scaled.map(|x| x.round());
-                }
+                self.phantom.copy_from_slice(&scaled[phantom_start..]);
+                round_phantom_points(&mut self.phantom);
             }
         }
         if points_start != 0 {
@@ -945,10 +953,7 @@ impl Scaler for FreeTypeScaler<'_> {
                     .get_mut(contour_base..self.contour_count)
                     .ok_or(InsufficientMemory)?;
                 // Round the phantom points.
-                for p in &mut scaled[phantom_start..] {
-                    p.x = p.x.round();
-                    p.y = p.y.round();
-                }
+                round_phantom_points(&mut scaled[phantom_start..]);
                 // Clear the "touched" flags that are used during IUP processing.
                 for flag in flags.iter_mut() {
                     flag.clear_marker(PointMarker::TOUCHED);
@@ -1269,6 +1274,20 @@ impl Scaler for HarfBuzzScaler<'_> {
             self.component_delta_count = delta_base;
         }
         Ok(())
+    }
+}
+
+/// Rounds the four phantom points to the pixel grid the way FreeType does
+/// before hinting: the horizontal pair in x only, the vertical pair in y
+/// only.
+///
+/// See <https://gitlab.freedesktop.org/freetype/freetype/-/blob/57617782464411201ce7bbc93b086c1b4d7d84a5/src/truetype/ttgload.c#L870>
+fn round_phantom_points(phantom: &mut [Point<F26Dot6>]) {
+    if let [pp1, pp2, pp3, pp4] = phantom {
+        pp1.x = pp1.x.round();
+        pp2.x = pp2.x.round();
+        pp3.y = pp3.y.round();
+        pp4.y = pp4.y.round();
     }
 }
 
